@@ -370,6 +370,26 @@ theorem bad_callback_invocations (types : List Ty) (cb : Nat) (beh : CbBehaviour
   rw [subgraphCall_count]
   cases beh.callable <;> simp
 
+/-- **Nested results are not spliced in.** A result with any element that is not a Var — in
+    particular a list or tuple *of Vars* (`[cond, [u, v]]`) — is a TypeError at the call (after exactly
+    one invocation); a flat result of `n` Vars counts `n`. -/
+theorem nested_results_typeerror (types : List Ty) (cb : Nat) (es : List ElemKind) (w : World) :
+    (es.all (fun e => e == .var) = true →
+        ∃ g w1, subgraphCall types cb (behaviourOfElems es) w = (.ok g, w1) ∧ g.nResults = es.length)
+      ∧ (es.all (fun e => e == .var) = false →
+        (subgraphCall types cb (behaviourOfElems es) w).1 = .error .typeError
+          ∧ (subgraphCall types cb (behaviourOfElems es) w).2.count cb = w.count cb + 1) := by
+  constructor
+  · intro h
+    simp [behaviourOfElems, h, subgraphCall, CbBehaviour.callable, CbBehaviour.result]
+  · intro h
+    have hb : (behaviourOfElems es).bad = true := by simp [behaviourOfElems, h, CbBehaviour.bad]
+    have := bad_callback_invocations types cb (behaviourOfElems es) w hb
+    simpa [behaviourOfElems, h, CbBehaviour.callable] using this
+
+example : behaviourOfElems [.var, .seqOfVars] = .hasNonVar 2 ∧ behaviourOfElems [.var, .var, .var] = .returnsVars 3
+    ∧ behaviourOfElems [] = .returnsVars 0 := by decide
+
 /-! ## Non-vacuity -/
 
 /-- Scan, two states and one scan input, rank ≥ 1 state: the hypotheses of
